@@ -282,6 +282,13 @@ def run_property(pid, spec, tier, seed, t0):
     }
     if spec.get("exhaustive"):
         cov["exhaustive"] = True
+    if not quick and harness_ok and os.environ.get("VERIF_NO_CODECOV") != "1":
+        # evidence only (never a verdict): which statements of the anchored Go files this property's case streams reach
+        try:
+            import codecov
+            cov["anchored_code_coverage"] = codecov.measure(pid, spec, seed)
+        except Exception as e:
+            cov["anchored_code_coverage"] = {"error": repr(e)[:300]}
     C.write_evidence(pid, tier, seed, t0, cov, violations, spec.get("assumptions", []))
     C.log("%s %s: obligations %d/%d, cases %d (compared %d, disagreements %d), oracle ok %d fail %d, %.1fs"
           % (pid, tier, discharged, obligations, tot.evaluations, tot.compared, len(tot.disagreements),
